@@ -19,7 +19,7 @@ EVAL_KEY = 'pairs'
 C = 10.0     # amen_solve residual
 CM = 5.0     # fast_matvec error (as C11)
 TIERS = {
-    'quick': {'runs': 1500, 'opts': {}, 'chunk': 15},
+    'quick': {'runs': 3000, 'opts': {}, 'chunk': 20},
     'thorough': {'runs': 100000, 'opts': {}, 'chunk': 60, 'time_cap': 1500},
 }
 RULE = ('per run one case of the C11 fast_matvec generator or the C12 generator (GMRES local solver; preconditioner None/c/r; with '
